@@ -64,6 +64,10 @@ pub trait Engine: Sync + Send {
         "exploration"
     }
     fn strategy(&self, tier: Tier) -> BoxedStrategy<Self::Case>;
+    /// Watchdog: seconds after which a single case counts as hung
+    fn hang_limit_secs(&self) -> u64 {
+        600
+    }
     /// Number of cases for the quick tier
     fn quick_cases(&self) -> usize;
     fn thorough_cases(&self) -> usize {
@@ -191,6 +195,42 @@ fn write_replay<C: Serialize>(
     Ok(path)
 }
 
+/// Cases abandoned by an engine because the code under test did not come back
+pub static HUNG_CASES: AtomicU64 = AtomicU64::new(0);
+static HUNG_NOTE: Mutex<Option<String>> = Mutex::new(None);
+
+pub fn note_hung_case<C: Serialize>(prop: &str, case: &C) {
+    let n = HUNG_CASES.fetch_add(1, Ordering::Relaxed);
+    if n == 0 {
+        let dir = Path::new(VERIF_ROOT).join("replays").join(prop).join("hang");
+        let _ = std::fs::create_dir_all(&dir);
+        let body = format!(
+            "{{\"property\":\"{prop}\",\"seed\":0,\"signature\":\"case did not finish\",\"detail\":\"abandoned by the engine\",\"case\":{}}}",
+            serde_json::to_string(case).unwrap_or_default()
+        );
+        let path = dir.join(format!("{:016x}.json", hash_str(&body)));
+        let _ = std::fs::write(&path, body);
+        *HUNG_NOTE.lock().unwrap() = Some(format!(
+            "INCONCLUSIVE: property={prop} the code under test did not come back on a generated case (hang); case saved to {}",
+            path.display()
+        ));
+    }
+}
+
+fn reap(handles: &mut Vec<std::thread::JoinHandle<()>>, panicked: &mut bool) {
+    let mut i = 0;
+    while i < handles.len() {
+        if handles[i].is_finished() {
+            let h = handles.swap_remove(i);
+            if h.join().is_err() {
+                *panicked = true;
+            }
+        } else {
+            i += 1;
+        }
+    }
+}
+
 /// Coverage of a systematic pre-phase (bounded exhaustive enumeration), merged into the evidence.
 pub static EXTRA_COVERAGE: Mutex<Option<serde_json::Value>> = Mutex::new(None);
 /// Violation found by a systematic pre-phase: reported by `run_engine` instead of searching.
@@ -276,13 +316,16 @@ pub fn run_engine<E: Engine + 'static>(engine: Arc<E>, tier: Tier, seed: u64) ->
     // a violation; the case is saved so that it can be replayed under a debugger
     let slots: Arc<Vec<Mutex<Option<(Instant, String)>>>> =
         Arc::new((0..threads).map(|_| Mutex::new(None)).collect());
+    let hung: Arc<Mutex<Option<String>>> = Arc::new(Mutex::new(None));
     {
         let slots = slots.clone();
         let prop = prop.clone();
+        let hung_flag = hung.clone();
+        let stop_wd = stop.clone();
         let limit = std::env::var("VERIF_HANG_SECS")
             .ok()
             .and_then(|v| v.parse().ok())
-            .unwrap_or(600u64);
+            .unwrap_or(engine.hang_limit_secs());
         std::thread::Builder::new()
             .name("watchdog".into())
             .spawn(move || loop {
@@ -305,11 +348,14 @@ pub fn run_engine<E: Engine + 'static>(engine: Arc<E>, tier: Tier, seed: u64) ->
                         );
                         let path = dir.join(format!("{:016x}.json", hash_str(&body)));
                         let _ = std::fs::write(&path, body);
-                        println!(
+                        // the main thread stops waiting for the hung thread; a violation that
+                        // another thread has found meanwhile is still reported
+                        *hung_flag.lock().unwrap() = Some(format!(
                             "INCONCLUSIVE: property={prop} a generated case did not finish within {limit} s (hang in the code under test or in the harness); case saved to {}",
                             path.display()
-                        );
-                        std::process::exit(2);
+                        ));
+                        stop_wd.store(true, Ordering::Relaxed);
+                        return;
                     }
                 }
             })
@@ -422,17 +468,47 @@ pub fn run_engine<E: Engine + 'static>(engine: Arc<E>, tier: Tier, seed: u64) ->
         handles.push(h);
     }
     let mut thread_panicked = false;
-    for h in handles {
-        if h.join().is_err() {
-            thread_panicked = true;
+    let mut handles = handles;
+    loop {
+        // wait for the search threads, but not for one that the watchdog declared hung (after
+        // the others had a moment to finish shrinking what they found)
+        reap(&mut handles, &mut thread_panicked);
+        if handles.is_empty() {
+            break;
         }
+        if hung.lock().unwrap().is_some() {
+            let t0 = Instant::now();
+            while handles.len() > 1 && t0.elapsed().as_secs() < 120 {
+                std::thread::sleep(std::time::Duration::from_millis(200));
+                reap(&mut handles, &mut thread_panicked);
+            }
+            break;
+        }
+        std::thread::sleep(std::time::Duration::from_millis(20));
     }
     if thread_panicked {
         eprintln!("INCONCLUSIVE: a harness thread panicked");
         return 2;
     }
+    if let Some(msg) = hung.lock().unwrap().clone() {
+        if let Some((v, path)) = found.lock().unwrap().take() {
+            println!("{msg}");
+            println!("VIOLATION property={} replay={}", prop, path.display());
+            println!("  signature: {}\n  detail: {}", v.signature, v.detail);
+            write_evidence(&*engine, tier, seed, &stats, 1, start, regress_run);
+            return 1;
+        }
+        println!("{msg}");
+        return 2;
+    }
 
     let found = found.lock().unwrap().take();
+    if found.is_none() {
+        if let Some(msg) = HUNG_NOTE.lock().unwrap().clone() {
+            println!("{msg} ({} cases abandoned)", HUNG_CASES.load(Ordering::Relaxed));
+            return 2;
+        }
+    }
     let violations = if found.is_some() { 1 } else { 0 };
     write_evidence(&*engine, tier, seed, &stats, violations, start, regress_run);
 
